@@ -356,6 +356,27 @@ func check(r *ev.Run, store string, db sortedkv.Database, sc *scenario, rc *reco
 			}
 			fail("mismatch", via, "restored channel is "+which+": "+diff(o.after, got), got)
 		}
+		// the machine rebuilt from the restored channel (what the client does with it) shows the same
+		// participant index, parameters, phase, current and staged transaction as the restored channel
+		if err == nil && ch != nil && inSet(got) && int(ch.IdxV) < len(sc.w.Parties) {
+			var m *channel.StateMachine
+			var merr error
+			func() {
+				defer func() {
+					if p := recover(); p != nil {
+						merr = fmt.Errorf("panic: %v", p)
+					}
+				}()
+				m, merr = channel.RestoreStateMachine(sc.w.Parties[ch.IdxV].AccMap(), ch)
+			}()
+			if merr != nil {
+				fail("machine-rebuild-error", via, fmt.Sprintf("channel.RestoreStateMachine refused the restored channel: %v", merr), got)
+			} else if mv := view(m, ch.PeersV, ch.Parent); mv != got {
+				fail("machine-rebuild-mismatch", via, "the machine rebuilt from the restored channel differs from it: "+diff(got, mv), mv)
+			} else {
+				r.Count("machines_rebuilt_from_restored_channels_and_compared", 1)
+			}
+		}
 		// no signature of another state may ever be restored with the staged state
 		if err == nil && ch != nil && ch.StagingTXV.State != nil {
 			for j, s := range ch.StagingTXV.Sigs {
